@@ -185,7 +185,7 @@ Definition panic_site_map : list (site * string) := [
    model is noted in DESIGN.md §0.6). `lits_for f num_literals = lits_for f reviewed_literals` is
    re-checked per file in the property files that depend on that file: a changed, added or removed
    number in a modelled function breaks the obligation until the model is revisited. *)
-From Coq Require Import NArith.
+From Coq Require Import NArith Bool.
 Definition lits_for (f : string) (l : list (string * string * list N)) : list (string * list N) :=
   map (fun x => (snd (fst x), snd x)) (filter (fun x => String.eqb (fst (fst x)) f) l).
 
@@ -290,3 +290,15 @@ Definition reviewed_literals : list (string * string * list N) := [
 (* the literals of the given files are today the reviewed ones *)
 Definition literals_ok (files : list string) : Prop :=
   Forall (fun f => lits_for f num_literals = lits_for f reviewed_literals) files.
+
+(* the same as a computation (decided by vm_compute: fails at once when a number changed) *)
+Fixpoint list_eqb {A} (eqb : A -> A -> bool) (l1 l2 : list A) : bool :=
+  match l1, l2 with
+  | [], [] => true
+  | x :: r1, y :: r2 => eqb x y && list_eqb eqb r1 r2
+  | _, _ => false
+  end.
+Definition lits_eqb (a b : list (string * list N)) : bool :=
+  list_eqb (fun x y => String.eqb (fst x) (fst y) && list_eqb N.eqb (snd x) (snd y)) a b.
+Definition literals_okb (files : list string) : bool :=
+  forallb (fun f => lits_eqb (lits_for f num_literals) (lits_for f reviewed_literals)) files.
